@@ -30,3 +30,23 @@ class MomentGridder(vd.base.BaseGridder):
         e, n = np.asarray(coordinates[0], dtype=float), np.asarray(coordinates[1], dtype=float)
         out = tuple(mean + first * e / 8.0 + mom * n / 16.0 for mean, first, mom in self.comps_)
         return out[0] if len(out) == 1 else out
+
+
+class PolyGridder(vd.base.BaseGridder):
+    """Analytic asymmetric gridder: component k predicts a + b*e + c*n + d*e*n (exact on dyadic inputs)."""
+
+    def __init__(self, coefs=((0.0, 2.0, 1000.0, 0.125),), region=None):
+        super().__init__()
+        self.coefs = coefs
+        self.region = region
+
+    @property
+    def region_(self):
+        if self.region is None:
+            raise AttributeError("no region_")
+        return self.region
+
+    def predict(self, coordinates):
+        e, n = np.asarray(coordinates[0], dtype=float), np.asarray(coordinates[1], dtype=float)
+        out = tuple(a + b * e + c * n + d * e * n for a, b, c, d in self.coefs)
+        return out[0] if len(out) == 1 else out
